@@ -29,6 +29,7 @@ def plan(tier: str, seed: int) -> Plan:
         chains += [[rng.choice(CORE) for _ in range(3)] for _ in range(120)]
     else:
         chains += [[rng.choice(CORE) for _ in range(3)] for _ in range(4)]
+        chains += [["limit", "skip", "limit"], ["limit", "first_one", "limit"], ["limit", "take", "limit"], ["head", "drop", "first"], ["skip", "limit", "take"]]
         chains += [["take", "skip", "tee"], ["skip", "take", "tail"], ["head", "drop", "last"], ["first", "one", "last_one"]]
     conds: List[Condition] = []
     seen = set()
@@ -43,6 +44,10 @@ def plan(tier: str, seed: int) -> Plan:
                                required=len(ch) < 3,
                                bounds=f"match sequence = $[*] over a symbolic List[int] of length<={ml}; every count from the pool -1..{ml + 2} "
                                       "(concretised by the harness: the C iterators refuse integer proxies)"))
+    for k, ch in enumerate([["skip"], ["limit"], ["tail"], ["take"], ["first_one"]] + ([["limit", "skip"], ["skip", "tail"], ["take", "limit"]] if thorough else [])):
+        for view in (VIEWS if thorough else [VIEWS[k % len(VIEWS)], VIEWS[(k + 2) % len(VIEWS)]]):
+            conds.append(Condition(f"dup:{'.'.join(ch)}:{view}", "chain", H, "chain", {"ops": ch, "view": view, "maxlen": 3, "query": "$[0, 0, *]"}, T * len(ch),
+                                   required=False, bounds="match sequence = $[0, 0, *]: the first element's node occurs three times in the sequence"))
     return Plan(
         conditions=conds,
         explanation=(
